@@ -851,6 +851,8 @@ pub struct IsingSpec {
     /// build the operator manager WITHOUT a per-bond counter table (`FastOps::new_from_nvars` through
     /// `new_with_rng_with_manager_hook`): `get_count` then walks the operator string
     pub no_table: bool,
+    /// small energy units: advance with `safe_step` (see `advance`)
+    pub tiny: bool,
 }
 
 pub fn make_ising(s: &IsingSpec, seed: u64) -> IsingQ {
@@ -888,7 +890,7 @@ pub fn random_graph(g: &mut SplitMix64, nvars: usize) -> Vec<(usize, usize)> {
 
 /// A ladder of `n` Ising replicas. `kind`: 0 beta, 1 J, 2 gamma, 3 h, 4 mixed, 5 mixed with repeated
 /// neighbours (so that some pairs are ham_eq and others are not).
-pub fn ising_ladder(g: &mut SplitMix64, n: usize, kind: u64, allow_rvb: bool) -> Vec<IsingSpec> {
+pub fn ising_ladder_base(g: &mut SplitMix64, n: usize, kind: u64, allow_rvb: bool) -> Vec<IsingSpec> {
     let nvars = 2 + g.below(3) as usize;
     let graph = random_graph(g, nvars);
     let signs: Vec<f64> = graph.iter().map(|_| if g.chance(1, 3) { -1.0 } else { 1.0 }).collect();
@@ -958,9 +960,119 @@ pub fn ising_ladder(g: &mut SplitMix64, n: usize, kind: u64, allow_rvb: bool) ->
                 1 => true,
                 _ => g.coin(),
             },
+            tiny: false,
         });
     }
     out
+}
+
+
+/// Ladder families. 0..5: see `ising_ladder_base`. 6: a multigraph with two PARALLEL edges of OPPOSITE
+/// sign on the same ordered site pair, RVB updates on (they move a bond operator from one copy to the other:
+/// same variables, other bond), J magnitudes varying independently per edge along the ladder. 7: h = 0
+/// positions mixed with h > 0 positions at small beta*h (strings without field operators are common, so
+/// exchanges out of and into the h = 0 positions do happen). 8: "small energy units": a ladder of kind
+/// 1..5 with J, Gamma, h scaled by 2^-56 or 2^-58 and beta by the inverse (all exact), so that Hamiltonians
+/// that differ by a factor differ by far less than f64::EPSILON in absolute terms.
+pub fn ising_ladder(g: &mut SplitMix64, n: usize, kind: u64, allow_rvb: bool) -> Vec<IsingSpec> {
+    match kind {
+        6 => {
+            let nvars = 2 + g.below(3) as usize;
+            let mut graph: Vec<(usize, usize)> = (0..nvars - 1).map(|i| (i, i + 1)).collect();
+            let mut signs: Vec<f64> = graph.iter().map(|_| if g.chance(1, 3) { -1.0 } else { 1.0 }).collect();
+            // opposite-sign twin of one or two chain edges
+            let twins = 1 + g.below(2) as usize;
+            for t in 0..twins.min(nvars - 1) {
+                graph.push(graph[t]);
+                signs.push(-signs[t]);
+            }
+            let gamma = g.range(1, 6) as f64 / 4.0;
+            let beta = g.range(2, 7) as f64 / 4.0;
+            let vary_b = g.chance(1, 3);
+            let table_mode = g.below(3);
+            (0..n)
+                .map(|_| IsingSpec {
+                    edges: graph.iter().enumerate().map(|(k, e)| (*e, signs[k] * g.range(1, 8) as f64 / 4.0)).collect(),
+                    gamma,
+                    h: 0.0,
+                    beta: if vary_b { g.range(2, 8) as f64 / 4.0 } else { beta },
+                    cutoff: 1 + g.below(6) as usize,
+                    heatbath: false,
+                    rvb: true,
+                    no_table: match table_mode {
+                        0 => false,
+                        1 => true,
+                        _ => g.coin(),
+                    },
+                    tiny: false,
+                })
+                .collect()
+        }
+        7 => {
+            let mut specs = ising_ladder_base(g, n, 3, false);
+            let hunit = (1 + g.below(2)) as f64 / 4.0;
+            let phase = g.below(2) as usize;
+            for (i, s) in specs.iter_mut().enumerate() {
+                s.h = if i % 2 == phase { 0.0 } else { hunit * (1 + g.below(2)) as f64 };
+                s.beta = (1 + g.below(3)) as f64 / 4.0;
+                s.rvb = false;
+            }
+            specs
+        }
+        8 => {
+            let base = 1 + g.below(5);
+            let mut specs = ising_ladder_base(g, n, base, false);
+            let sc = if g.coin() { (2.0f64).powi(-56) } else { (2.0f64).powi(-58) };
+            for s in specs.iter_mut() {
+                for e in s.edges.iter_mut() {
+                    e.1 *= sc;
+                }
+                s.gamma *= sc;
+                s.h *= sc;
+                s.beta /= sc;
+                s.heatbath = false;
+                s.rvb = false;
+                s.tiny = true;
+            }
+            specs
+        }
+        k => ising_ladder_base(g, n, k, allow_rvb),
+    }
+}
+
+/// `t` update sweeps of every replica. Ladders in small energy units are advanced with
+/// `single_diagonal_step` + `single_cluster_step` (see `Rep::safe_step`), everything else with the
+/// real `timesteps`.
+pub fn advance<Q: Rep>(tc: &mut TC<Q>, t: usize, safe: bool) -> Result<(), String> {
+    catch(|| {
+        if safe {
+            for (q, beta) in tc.graph_mut().iter_mut() {
+                for _ in 0..t {
+                    q.q.safe_step(*beta);
+                }
+            }
+        } else {
+            tc.timesteps(t)
+        }
+    })
+}
+
+/// Grow one or two operator managers by hand through the public `get_manager_mut().set_cutoff`
+/// (the sampler's own cutoff and verify() are unaffected): the manager then holds more slots than
+/// its sampler's cutoff, possibly more than the ladder maximum.
+pub fn grow_managers_by_hand<Q: Rep>(tc: &mut TC<Q>, g: &mut SplitMix64) {
+    let n = tc.num_graphs();
+    if n == 0 {
+        return;
+    }
+    let maxc = tc.graph_ref().iter().map(|(q, _)| q.q.sampler_cutoff()).max().unwrap_or(0);
+    for _ in 0..1 + g.below(2) {
+        let i = g.below(n as u64) as usize;
+        let to = if g.coin() { maxc + 1 + g.below(12) as usize } else { tc.graph_ref()[i].0.q.mgr_cutoff() + 1 + g.below(6) as usize };
+        if tc.graph_mut()[i].0.q.grow_manager(to) {
+            stat(&format!("{}.managers_grown_by_hand", Q::KIND), 1);
+        }
+    }
 }
 
 pub fn build_ising(g: &mut SplitMix64, specs: &[IsingSpec], log: &Log) -> Result<TC<IsingQ>, String> {
@@ -1025,8 +1137,11 @@ pub fn random_gen_ham(g: &mut SplitMix64, nvars: usize) -> Vec<(bool, Vec<f64>, 
 // Modes
 // ------------------------------------------------------------------------------------------
 pub fn equilibrate<Q: Rep>(tc: &mut TC<Q>, g: &mut SplitMix64) -> Result<(), String> {
+    equilibrate_s(tc, g, false)
+}
+pub fn equilibrate_s<Q: Rep>(tc: &mut TC<Q>, g: &mut SplitMix64, safe: bool) -> Result<(), String> {
     let t = 3 + g.below(20) as usize;
-    catch(|| tc.timesteps(t))
+    advance(tc, t, safe)
 }
 
 pub fn mode_ising_steps(seed: u64, thorough: bool) {
@@ -1180,7 +1295,7 @@ pub fn mode_pairs(seed: u64, thorough: bool) {
                     (*e, j)
                 })
                 .collect();
-            IsingSpec { edges, gamma: g.range(1, 8) as f64 / 4.0, h: 0.0, beta: g.range(1, 8) as f64 / 4.0, cutoff: 1 + g.below(5) as usize, heatbath: false, rvb: false, no_table: g.chance(1, 2) }
+            IsingSpec { edges, gamma: g.range(1, 8) as f64 / 4.0, h: 0.0, beta: g.range(1, 8) as f64 / 4.0, cutoff: 1 + g.below(5) as usize, heatbath: false, rvb: false, no_table: g.chance(1, 2), tiny: false }
         };
         let mut a = mk(&mut g, &graph, None, None);
         let variant = c % 8;
@@ -1542,7 +1657,7 @@ fn main() {
 pub fn mode_mismatch(seed: u64) {
     let mut g = SplitMix64::new(seed ^ 0xbad);
     for trial in 0..4u64 {
-        let a = IsingSpec { edges: vec![((0, 1), 1.0), ((1, 2), 1.0)], gamma: 1.0, h: 0.0, beta: 1.0, cutoff: 4, heatbath: false, rvb: false, no_table: false };
+        let a = IsingSpec { edges: vec![((0, 1), 1.0), ((1, 2), 1.0)], gamma: 1.0, h: 0.0, beta: 1.0, cutoff: 4, heatbath: false, rvb: false, no_table: false, tiny: false };
         let mut b = a.clone();
         b.edges.push(((0, 2), 0.5 + 0.25 * trial as f64));
         let log = new_log();
